@@ -16,7 +16,7 @@ pub fn property() -> Property {
         assumptions: &["private HashTable<ZobristHash, u64> reached through the cfg(inkayaku_verif) handle VerifTable"],
         parts: vec![Part {
             name: "histories",
-            quick: 20_000,
+            quick: 100_000,
             thorough: 2_000_000,
             single_shard: false, supplementary: false,
             run: |cfg| {
